@@ -88,10 +88,21 @@ func runC07(c *Ctx) {
 // (bits.Len64(leafIndex ^ lastLeafIndex)). The v1 verifier decides this with one condition inside its loop;
 // the condition only compares (bit i, i vs subtreeHeight), so it is evaluated over all 6 orderings.
 func c07ProofRootOrder(c *Ctx) {
-	fd, info, ok := c.declOf("consensus.validateFileContracts")
-	if !ok {
-		c.Undecided("proof-root-order", "v1", "", "anchor does not resolve")
+	pkg := c.P.Pkg("consensus")
+	if pkg == nil {
+		c.Undecided("proof-root-order", "v1", "", "package consensus does not load")
 		return
+	}
+	info := pkg.TypesInfo
+	// the loop is identified by what it does (chooses between SumPair(h, root) and SumPair(root, h) by a condition that
+	// compares the loop index), wherever a refactoring has put it
+	var fds []*ast.FuncDecl
+	for _, f := range pkg.Syntax {
+		for _, d := range f.Decls {
+			if fd, ok := d.(*ast.FuncDecl); ok && fd.Body != nil {
+				fds = append(fds, fd)
+			}
+		}
 	}
 	isSumPair := func(e ast.Expr) (*ast.CallExpr, bool) {
 		call, ok := stripParens(e).(*ast.CallExpr)
@@ -102,83 +113,92 @@ func c07ProofRootOrder(c *Ctx) {
 		return call, f != nil && f.Name() == "SumPair" && f.Pkg() != nil && strings.HasSuffix(f.Pkg().Path(), "/blake2b")
 	}
 	found := false
-	ast.Inspect(fd.Body, func(n ast.Node) bool {
-		rs, ok := n.(*ast.RangeStmt)
-		if !ok || rs.Key == nil || rs.Value == nil {
-			return true
-		}
-		key, _ := rs.Key.(*ast.Ident)
-		val, _ := rs.Value.(*ast.Ident)
-		if key == nil || val == nil {
-			return true
-		}
-		// if cond { root = SumPair(a,b) } else { root = SumPair(b,a) }
-		for _, st := range rs.Body.List {
-			ifs, ok := st.(*ast.IfStmt)
-			if !ok || ifs.Else == nil || len(ifs.Body.List) != 1 {
-				continue
+	for _, fd := range fds {
+		ast.Inspect(fd.Body, func(n ast.Node) bool {
+			rs, ok := n.(*ast.RangeStmt)
+			if !ok || rs.Key == nil || rs.Value == nil {
+				return true
 			}
-			els, ok := ifs.Else.(*ast.BlockStmt)
-			if !ok || len(els.List) != 1 {
-				continue
+			key, _ := rs.Key.(*ast.Ident)
+			val, _ := rs.Value.(*ast.Ident)
+			if key == nil || val == nil {
+				return true
 			}
-			order := func(s ast.Stmt) string { // "hash-left" when the proof hash is the first argument
-				as, ok := s.(*ast.AssignStmt)
-				if !ok || len(as.Rhs) != 1 {
+			// if cond { root = SumPair(a,b) } else { root = SumPair(b,a) }
+			for _, st := range rs.Body.List {
+				ifs, ok := st.(*ast.IfStmt)
+				if !ok || ifs.Else == nil || len(ifs.Body.List) != 1 {
+					continue
+				}
+				els, ok := ifs.Else.(*ast.BlockStmt)
+				if !ok || len(els.List) != 1 {
+					continue
+				}
+				order := func(s ast.Stmt) string { // "hash-left" when the proof hash is the first argument
+					as, ok := s.(*ast.AssignStmt)
+					if !ok || len(as.Rhs) != 1 {
+						return ""
+					}
+					call, ok := isSumPair(as.Rhs[0])
+					if !ok {
+						return ""
+					}
+					a0, _ := stripParens(call.Args[0]).(*ast.Ident)
+					a1, _ := stripParens(call.Args[1]).(*ast.Ident)
+					if a0 != nil && info.Uses[a0] == info.Defs[val] {
+						return "hash-left"
+					}
+					if a1 != nil && info.Uses[a1] == info.Defs[val] {
+						return "hash-right"
+					}
 					return ""
 				}
-				call, ok := isSumPair(as.Rhs[0])
-				if !ok {
-					return ""
+				thenO, elseO := order(ifs.Body.List[0]), order(els.List[0])
+				if thenO == "" || elseO == "" || thenO == elseO {
+					continue
 				}
-				a0, _ := stripParens(call.Args[0]).(*ast.Ident)
-				a1, _ := stripParens(call.Args[1]).(*ast.Ident)
-				if a0 != nil && info.Uses[a0] == info.Defs[val] {
-					return "hash-left"
-				}
-				if a1 != nil && info.Uses[a1] == info.Defs[val] {
-					return "hash-right"
-				}
-				return ""
-			}
-			thenO, elseO := order(ifs.Body.List[0]), order(els.List[0])
-			if thenO == "" || elseO == "" || thenO == elseO {
-				continue
-			}
-			found = true
-			where := c.P.Pos(ifs.Pos())
-			// evaluate the condition on the 6 abstract cases
-			for _, bit := range []int{0, 1} {
-				for _, cmp := range []int{-1, 0, 1} {
-					ev := &bitCmpEval{info: info, idx: info.Defs[key], bit: bit, cmp: cmp}
-					res := ev.cond(ifs.Cond)
-					inst := fmt.Sprintf("v1:bit=%d,i%ssubtreeHeight", bit, map[int]string{-1: "<", 0: "=", 1: ">"}[cmp])
-					if len(ev.unsup) > 0 {
-						c.Undecided("proof-root-order", inst, where, "condition uses a construct outside (bit test of the leaf index at i, comparison of i with the subtree height): "+strings.Join(ev.unsup, "; "))
+				// only the ragged-tree verifier compares the index with a threshold; the plain proofRoot does not
+				if probe := (&bitCmpEval{info: info, idx: info.Defs[key]}); true {
+					probe.cond(ifs.Cond)
+					if probe.threshold == nil {
 						continue
 					}
-					got := elseO
-					if res {
-						got = thenO
+				}
+				found = true
+				where := c.P.Pos(ifs.Pos())
+				// evaluate the condition on the 6 abstract cases
+				for _, bit := range []int{0, 1} {
+					for _, cmp := range []int{-1, 0, 1} {
+						ev := &bitCmpEval{info: info, idx: info.Defs[key], bit: bit, cmp: cmp}
+						res := ev.cond(ifs.Cond)
+						inst := fmt.Sprintf("v1:bit=%d,i%ssubtreeHeight", bit, map[int]string{-1: "<", 0: "=", 1: ">"}[cmp])
+						if len(ev.unsup) > 0 {
+							c.Undecided("proof-root-order", inst, where, "condition uses a construct outside (bit test of the leaf index at i, comparison of i with the subtree height): "+strings.Join(ev.unsup, "; "))
+							continue
+						}
+						got := elseO
+						if res {
+							got = thenO
+						}
+						want := "hash-right"
+						if bit == 1 || cmp >= 0 {
+							want = "hash-left"
+						}
+						c.Check(got == want, "proof-root-order", inst, where, ifElse(got == want, "proof hash is the "+strings.TrimPrefix(want, "hash-")+" sibling", "the proof hash is hashed as the "+strings.TrimPrefix(got, "hash-")+" sibling, but at this position it is the "+strings.TrimPrefix(want, "hash-")+" one: honest proofs of ragged files are rejected (or wrong leaves accepted)"))
 					}
-					want := "hash-right"
-					if bit == 1 || cmp >= 0 {
-						want = "hash-left"
-					}
-					c.Check(got == want, "proof-root-order", inst, where, ifElse(got == want, "proof hash is the "+strings.TrimPrefix(want, "hash-")+" sibling", "the proof hash is hashed as the "+strings.TrimPrefix(got, "hash-")+" sibling, but at this position it is the "+strings.TrimPrefix(want, "hash-")+" one: honest proofs of ragged files are rejected (or wrong leaves accepted)"))
+				}
+				// the threshold is the ragged-subtree height
+				if ev := (&bitCmpEval{info: info, idx: info.Defs[key]}); true {
+					ev.cond(ifs.Cond)
+					ok := ev.threshold != nil && isSubtreeHeight(info, fd, ev.threshold)
+					c.Check(ok, "proof-root-order", "v1:threshold", where, ifElse(ok, "i is compared with bits.Len64(leafIndex ^ lastLeafIndex(filesize))", "the loop index is not compared with bits.Len64(leafIndex ^ lastLeafIndex(filesize))"))
 				}
 			}
-			// the threshold is the ragged-subtree height
-			if ev := (&bitCmpEval{info: info, idx: info.Defs[key]}); true {
-				ev.cond(ifs.Cond)
-				ok := ev.threshold != nil && isSubtreeHeight(info, fd, ev.threshold)
-				c.Check(ok, "proof-root-order", "v1:threshold", where, ifElse(ok, "i is compared with bits.Len64(leafIndex ^ lastLeafIndex(filesize))", "the loop index is not compared with bits.Len64(leafIndex ^ lastLeafIndex(filesize))"))
-			}
-		}
-		return true
-	})
+			return true
+		})
+	}
 	if !found {
-		c.Undecided("proof-root-order", "v1", c.P.Pos(fd.Pos()), "no loop choosing between SumPair(h, root) and SumPair(root, h) found in validateFileContracts")
+		c.Undecided("proof-root-order", "v1", "", "no loop choosing between SumPair(h, root) and SumPair(root, h) by the loop index found in package consensus")
 	}
 	c.Min("proof-root-order", 7)
 }
